@@ -535,6 +535,61 @@ def rule_cleanup(run):
            line=srch.node.lineno, detail="candidates",
            expected="only ir.Boolean casts between root Temporaries of type bool are dropped",
            found="ok" if not missing and only_boolean == ["ir.Boolean"] else f"missing conditions {missing}; statement kinds {only_boolean}")
+    # chains of removed casts: after the pass no reference to a removed cast result may remain (abstract evaluation)
+    from ..absint import Interp, Reject
+
+    class _Tmp:
+        def __init__(self, name):
+            self.name, self._root, self.type = name, self, "BOOL"
+
+    class _Cast:
+        def __init__(self, arg, result):
+            self._arg, self._result = arg, result
+
+    class _Nop:
+        pass
+
+    class _Use:
+        def __init__(self, obj):
+            self.obj = obj
+
+    class _Ctx:
+        def __init__(self, stmts, uses):
+            self.stmts, self.uses = stmts, uses
+
+        def visit(self, fn):
+            self.stmts = [fn(st) for st in self.stmts]
+
+        def visit_referenced_objects(self, fn):
+            for u in self.uses:
+                u.obj = fn(u.obj, "READ")
+
+    class _NS:
+        def __init__(self, **kw):
+            self.__dict__.update(kw)
+
+    def _isinst(v, t):
+        ts = t if isinstance(t, tuple) else (t,)
+        return any(isinstance(x, type) and isinstance(v, x) for x in ts)
+
+    for n_chain in (1, 2, 3, 4):
+        for order in ("forward", "reverse"):
+            tmps = [_Tmp(f"t{i}") for i in range(n_chain + 1)]
+            casts = [_Cast(tmps[i], tmps[i + 1]) for i in range(n_chain)]
+            if order == "reverse":
+                casts = list(reversed(casts))
+            uses = [_Use(t) for t in tmps[1:]]
+            ctxm = _Ctx(list(casts), uses)
+            prims = {"isinstance": _isinst, "Temporary": _Tmp, "IdMap": dict, "ir": _NS(Boolean=_Cast, Nop=_Nop), "_boolean": _NS(boolean="BOOL")}
+            try:
+                Interp(gen, prims).call_function("ConvertInstance.cleanup_bool_cast", ctxm)
+                removed = [c._result for c, st in zip(casts, ctxm.stmts) if isinstance(st, _Nop)]
+                dangling = sorted({u.obj.name for u in uses if any(u.obj is r for r in removed)})
+                found = "ok" if not dangling else f"uses still refer to removed cast results {dangling}"
+            except Reject as e:
+                dangling, found = ["?"], f"rejected: {e}"
+            run.ob(not dangling, "cleanup_bool_cast", file=gen.rel, line=cb.node.lineno, detail=f"chain={n_chain},{order}",
+                   expected="every use of a removed cast result is rewritten to a temporary that is still assigned", found=found, sample=(n_chain == 2 and order == "forward"))
     rep = [c for c in calls_in(cb.node) if c.args and dotted(c.args[0]) == "replace_temporaries"]
     how = rep[0].func.attr if rep and isinstance(rep[0].func, ast.Attribute) else None
     run.ob(how == "visit_referenced_objects", "cleanup_bool_cast", file=gen.rel, line=cb.node.lineno, detail="rewrite-scope",
